@@ -95,6 +95,18 @@ class C19Model(QsModel):
         QsModel.on_resp(self, conn, rpc, args, payload, now)
 
 
+GHOST_QSERVE = ("sim2", 14312)
+
+
+class GhostClient:
+    host, port = GHOST_QSERVE
+
+    def send(self, name, **kwargs):
+        if name == "qadd":
+            return kwargs.get("jobid")
+        return None
+
+
 class InProcClient:
     """rpc_client for qs.rpcclient.ServerProxy: JSON-encodes the call, parks the calling
     greenlet until the scheduler releases the request and the server answered."""
@@ -123,6 +135,7 @@ class C19Run(qsrun.QsRun):
         self.parked = {}  # pid -> (rpc, args, AsyncResult)
         self.calls = {}  # pid -> dict(kind, cid, writer, greenlet, out)
         self.npolls = 0
+        self.assigned_here = set()
         self.poll_stats = {}
         self.interleaved_polls = 0
 
@@ -173,14 +186,35 @@ class C19Run(qsrun.QsRun):
 
             @staticmethod
             def ServerProxy(host=None, port=None, rpc_client=None):
+                call = run.calls[run._creating_pid]
+                if (host, port) == GHOST_QSERVE:
+                    # the second queue server of the installation: it knows none of our jobs
+                    call["ghost"] = True
+                    call["was_assigned_here"] = call["cid"] in run.assigned_here
+                    return rpcclient.ServerProxy(rpc_client=GhostClient())
                 if (host, port) != SIM_QSERVE:
                     raise kernel_HarnessError(f"nserve picked queue server {(host, port)!r}")
+                run.assigned_here.add(call["cid"])  # nserve keeps a collection on the queue server it first chose
                 return rpcclient.ServerProxy(rpc_client=InProcClient(run, run._creating_pid))
 
         nserve.rpcclient = _RpcClientModule
         nserve.busy.clear()
         nserve.busy[SIM_QSERVE] = False
+        if self.config is not None and self.config.get("two_qserves") or self.script is not None:
+            nserve.busy[GHOST_QSERVE] = "system down"
         nserve.collid2qserve = lrucache.LRUCache(4000)
+        self.blip = False
+
+    def set_blip(self, on):
+        """What WatchQServe does when the assigned queue server looks overloaded or down for a
+        moment, while the installation's other queue server is idle."""
+        from mwlib.core import nserve
+        if GHOST_QSERVE not in nserve.busy:
+            return False
+        self.blip = bool(on)
+        nserve.busy[SIM_QSERVE] = "system overloaded" if on else False
+        nserve.busy[GHOST_QSERVE] = False if on else "system down"
+        return True
 
     def _uninstall_nserve(self):
         from mwlib.core import nserve
@@ -202,6 +236,11 @@ class C19Run(qsrun.QsRun):
             self._app_call(pid, kind, cid, writer, mode)
             self._inject(("app", kind))
             return True
+        if op == "blip":
+            ok = self.set_blip(st[1] == "on")
+            if ok and st[1] == "on":
+                self.fault("queue-server-busy-blip")
+            return ok
         if op == "prpc":
             pid = st[1]
             p = self.parked.pop(pid, None)
@@ -230,6 +269,8 @@ class C19Run(qsrun.QsRun):
                     self.check_status(pid, call)
                 else:
                     out = call["out"]
+                    if isinstance(out, dict) and (out.get("queue_full") or call.get("ghost")):
+                        continue
                     if not isinstance(out, dict) or "exception" in out or "error" in out:
                         raise Violation("S-exception", f"do_render({call['cid']}, {call['writer']}) returned {out!r}")
 
@@ -241,6 +282,18 @@ class C19Run(qsrun.QsRun):
         snaps = model.poll_snaps.get(self.sim.cid(pid), [])
         self.npolls += 1
         what = f"status({cid[:4]}.., {writer})"
+        if isinstance(out, dict) and out.get("queue_full"):
+            self.poll_stats["overloaded-answer"] = self.poll_stats.get("overloaded-answer", 0) + 1
+            return  # "system overloaded, try again later": a refusal, not a status
+        if call.get("ghost"):
+            # the collection is assigned to the other queue server (it was first seen while this
+            # one was busy): nothing of it can be known here, so it can only be in progress
+            self.poll_stats["asked-other-queue-server"] = self.poll_stats.get("asked-other-queue-server", 0) + 1
+            known = [j for j in (f"{cid}:render-{writer}", f"{cid}:makezip") if j in model.jobs]
+            if call.get("was_assigned_here") and known:
+                raise Violation("S-state", f"{what} asked the installation's other queue server although the collection's "
+                                f"jobs live on this one; it answered {out.get('state') if isinstance(out, dict) else out!r}")
+            return
         if not isinstance(out, dict) or "exception" in out or "state" not in out:
             raise Violation("S-exception", f"{what} returned {out!r}")
         if out.get("collection_id") != cid or out.get("writer") != writer:
@@ -365,6 +418,8 @@ class C19Run(qsrun.QsRun):
         rng = self.rng
         c = self.config
         live_calls = [p for p, cl in self.calls.items() if not cl["finished"]]
+        if c.get("two_qserves") and rng.random() < (0.5 if self.blip else 0.06):
+            return ["blip", "off" if self.blip else "on"]
         r = rng.random()
         if self.parked and r < c["p_release"]:
             return ["prpc", rng.choice(sorted(self.parked))]
@@ -478,6 +533,7 @@ def draw_run(seed, prop, i, allow_restart=False):
     cfg["p_release"] = rng.choice([0.15, 0.3, 0.5])
     cfg["p_poll"] = rng.choice([0.1, 0.2, 0.3])
     cfg["p_status"] = rng.choice([0.5, 0.8])
+    cfg["two_qserves"] = faults and rng.random() < 0.4
     w = cfg["weights"]
     w["add"] = rng.choice([0, 1])
     w["addwait"] = 0
